@@ -8,6 +8,9 @@ Domain : base files = canonical generated programs (all 7 languages) and the ven
          for every corpus file, and the inverse direction (all trivia stripped from generated programs).
          A line boundary is token-safe iff the newline character belongs to a whitespace-only token of the BASE text (or
          is the last character of a comment token); the decision uses the lexer's own token spans.
+         One generated case in five runs through the file-based entry point instead: scan_command, edit the file on
+         disk, scan_command again (which finds the first scan's cache); C / C++ bases then also use the ambiguous
+         extensions .h / .hpp.
 Oracle : metamorphic - same function names in the same order with equal lengths and columns; every start / end line
          shifted by exactly the number of lines inserted above it.
 """
@@ -18,7 +21,7 @@ from pathlib import Path
 
 from hypothesis import strategies as st
 
-from vf.common import HOME, call_sut, run_given, shard_seed, withheld_constructs
+from vf.common import HOME, call_sut, digest, run_given, shard_seed, withheld_constructs
 from vf.gen import programs as P
 from vf.props.c01 import tool_scan_file
 
@@ -40,7 +43,7 @@ ASSUMPTIONS = [
 FLOOR = {"quick": 800, "thorough": 20000}
 
 LANG_OF_DIR = {"c": "C", "cpp": "C++", "csharp": "C#", "java": "Java", "javascript": "JavaScript", "typescript": "TypeScript", "python": "Python"}
-COMMENT_BODIES = ["note", "x(y) { z }", "if (a) {", "}", "{", "def f(a):", "function g() {", "(", ")", "a = b;", "int f(int a) {", "\"", "'", "`", "see nocl",
+COMMENT_BODIES = ["see [section two]", "@end", "@implementation Foo", "[obj msg:arg]", "note", "x(y) { z }", "if (a) {", "}", "{", "def f(a):", "function g() {", "(", ")", "a = b;", "int f(int a) {", "\"", "'", "`", "see nocl",
                   "not nocl", "keep (NOCL is elsewhere)", "form\x0cfeed"]
 BLANKS = ["  ", "\t", "        ", " \t ", "\x0c", "\x0b", " \x0c", "\x1c"]
 
@@ -189,6 +192,51 @@ def _base(lang, text):
     return _BASE_CACHE[key]
 
 
+def _scan_file_on_disk(root, rel):
+    """scan_command (cache-assisted when a cache exists) -> measurements of `rel` from the report it wrote, or an error."""
+    import json as _json
+
+    from vf.harness import cli
+
+    res = cli.run_scan(root, ".")
+    if res.exc:
+        return ("exc", res.exc[0], res.exc[1])
+    doc = _json.loads((root / ".codelimit_cache" / "codelimit.json").read_text())
+    e = doc["codebase"]["files"].get(rel)
+    if e is None:
+        return ("ok", None)
+    return ("ok", [(m["unit_name"], m["start"]["line"], m["start"]["column"], m["end"]["line"], m["end"]["column"], m["value"]) for m in e["measurements"]])
+
+
+def check_plan_on_disk(lang, text, edits, ext):
+    """The same relation through the file-based entry point, twice in a row: scan, edit the file, scan again (the second
+    scan finds the first one's cache). The extension may be an ambiguous one ('.h')."""
+    from vf.harness import tree
+
+    rel = f"src/prog.{ext}"
+    new_text, shifts = apply_plan(text, edits)
+    with tree.temp_tree({rel: text}) as root:
+        r = _scan_file_on_disk(root, rel)
+        if r[0] == "exc" or r[1] is None:
+            return None, None
+        base = r[1]
+        (root / rel).write_text(new_text)
+        r = _scan_file_on_disk(root, rel)
+    if r[0] == "exc":
+        return base, (f"{lang}:on-disk:{r[1]}", r[2])
+    if r[1] is None:
+        return base, (f"{lang}:on-disk:file-disappeared", f"after the edit the file is no longer analysed at all (extension .{ext})\nedits: {edits}")
+    got = r[1]
+    want = [(m[0], m[1] + shift_of(shifts, m[1]), m[2], m[3] + shift_of(shifts, m[3]), m[4], m[5]) for m in base]
+    if got == want:
+        return base, None
+    if [g[0] for g in got] != [w[0] for w in want]:
+        return base, (f"{lang}:on-disk:functions-changed", f"functions {[w[0] for w in want]} -> {[g[0] for g in got]} (extension .{ext})\nedits: {edits}")
+    g, w = next((g, w) for g, w in zip(got, want) if g != w)
+    kind = "length-changed" if g[5] != w[5] else "line-shift-wrong" if (g[1], g[3]) != (w[1], w[3]) else "column-changed"
+    return base, (f"{lang}:on-disk:{kind}", f"{g[0]}: {w} expected after the edit, second scan reports {g} (extension .{ext})\nedits: {edits}")
+
+
 def check_plan(lang, text, edits):
     r = _base(lang, text)
     if r[0] == "exc":
@@ -222,6 +270,9 @@ def _load(case):
 def run_case(case):
     if case.get("kind") == "strip":
         return check_strip(case)
+    if case.get("on_disk"):
+        _, bad = check_plan_on_disk(case["lang"], _load(case), case["edits"], case["on_disk"])
+        return bad
     _, bad = check_plan(case["lang"], _load(case), case["edits"])
     return bad
 
@@ -441,7 +492,17 @@ def gen(col, seed, n, lang, use_corpus):
         if not edits:
             return
         case = dict(case, edits=edits)
-        base, bad = check_plan(lang, text, edits)
+        if "corpus" not in case and not text.startswith("\ufeff") and int(digest(text), 16) % 5 == 0:
+            from vf.harness import tree as _tree
+
+            ext = _tree.EXT[lang]
+            if lang in ("C", "C++") and int(digest(text), 16) % 2 == 0:
+                ext = "h" if lang == "C" else "hpp"
+            case = dict(case, on_disk=ext)
+            base, bad = check_plan_on_disk(lang, text, edits, ext)
+            col.label("via:scan-edit-scan-on-disk", f"ext:{ext}")
+        else:
+            base, bad = check_plan(lang, text, edits)
         col.evals += 1
         if base is None:
             col.label("base-not-analysable")
@@ -454,8 +515,6 @@ def gen(col, seed, n, lang, use_corpus):
         if text.startswith("\ufeff"):
             col.label("base:with-bom")
         if nt:
-            from vf.common import digest
-
             col.nontrivial.add(digest(case))
             col.sample({"lang": lang, "base": case.get("corpus", "generated program"), "edits": edits[:6]})
         if bad:
